@@ -1,9 +1,11 @@
 #!/bin/bash
-# usage: applyfix.sh <diff under /verif/fixes> <commit message>   — applies to /repo, runs baseline (one retry for the load-sensitive timing test), commits
+# usage: applyfix.sh <diff under /verif/fixes> <commit message>   — applies to /repo, rebuilds extensions if .pyx/.cc changed,
+# runs baseline (one retry for the load-sensitive timing test), commits
 cd /repo
 f="$1"; msg="$2"
 if ! patch -p1 --quiet < /verif/fixes/$f; then echo "PATCH FAIL $f"; git checkout -- src; find src -name "*.rej" -o -name "*.orig" | xargs rm -f; exit 1; fi
 find src -name "*.orig" | xargs rm -f
+if git status --short | grep -qE "\.pyx|\.cc|\.re"; then /venv/bin/python /verif/vt/rebuild_repo_ext.py 2>&1 | tail -1; fi
 r=$(/verif/vt/baseline.sh); case "$r" in *"702 passed"*) ;; *) r=$(/verif/vt/baseline.sh);; esac
 echo "$f: $r"
-case "$r" in *"702 passed"*) git add -A src && git commit -qm "$msg" && echo committed;; *) echo "TESTS CHANGED - reverting"; git checkout -- src; exit 1;; esac
+case "$r" in *"702 passed"*) git add -A src && git commit -qm "$msg" && echo committed;; *) echo "TESTS CHANGED - reverting"; git checkout -- src; /venv/bin/python /verif/vt/rebuild_repo_ext.py | tail -1; exit 1;; esac
